@@ -8,7 +8,7 @@ pub fn family() -> Family {
 }
 
 fn corpus() -> Vec<&'static str> {
-    vec!["a", "  foo", "(a b)", "(a\n b)", "'x", "#(1 2)", "(a . b)", "(a (b c) . d)", "#u8(1 2)", "`(a ,b ,@c)", ",@x", "'(a 'b)", "\"str\\n\" #\\x", "(1.5 -2 #t)",
+    vec!["\u{feff}(a b)", "\u{feff}a\n(b)", "(\u{feff}a b)", "a", "  foo", "(a b)", "(a\n b)", "'x", "#(1 2)", "(a . b)", "(a (b c) . d)", "#u8(1 2)", "`(a ,b ,@c)", ",@x", "'(a 'b)", "\"str\\n\" #\\x", "(1.5 -2 #t)",
          "\u{3bb} (\u{3bb}x \"\u{3bb}\" y)", "\"\u{e9}\" z", "(a . 'b)", "[a b]", "#(a #(b) (c))", "(a ; c\n b)\n(c\n\n d)", "(.a)", "(a . (b c))", "((a) (b))", "  ( a )  b", "(,@a)", "'#(1)", "''a", "(a\r b)\r\n(c\r d)", "a\r\nb", "(doc \"first\nsecond\" tail)", "\"a\n\nb\" x\n(y \"\n\")", "(a\n,\nb)", "sym\n12\n:k\n", "\n\n  (a b)", "  \n (x\n y)  \n", "\t\"s\"", " ; c\n  (a . b) ", "\r\n\r\n  #(1\r\n 2)", "\n#\\a", "   'q   ",
          "(a .\u{3bb}x b)", "(.\u{65e5}\u{672c} 1)", "(\"s\".\u{e9}\u{e9})", "(.foo .. ...)", "( )", "(\n)", "( ; c\n )", "[ ]", "(a ( ) b)", "#( )", "#u8( )", "(\u{3bb} .\u{3bb})", "(a . \u{3bb})", "'\u{3bb}", "(\"\u{3bb}\" . \"\u{1f600}\")", "(foo\"bar\" baz)", "a\"b\"c", "(a\tb\tc)", "foo\tbar", "(x:\"s\")", "' foo", "`  ; c\n (a)", ",@ x", "'a 'b", "(1 'a . 'b)"]
 }
